@@ -295,6 +295,12 @@ def step (w : World) (line : String) : World × String :=
         | (w', some id) => (w', toString id)
         | (w', none) => (w', "raise"))
     | none => (w, "bad-op")
+  | ["obsn", k] =>
+    match parseKind k with
+    | some kind => (match w.constructDetached kind with
+        | (w', some id) => (w', toString id)
+        | (w', none) => (w', "raise"))
+    | none => (w, "bad-op")
   | ["obs", k, t] =>
     match parseKind k, t.toNat? with
     | some kind, some tag => (match w.construct kind tag with
@@ -592,6 +598,9 @@ def stepAll (d : DW) (line : String) : DW × String :=
   | ["estep", j, m] => (match d.env, j.toNat?, m.toInt? with
      | some e, some j, some m => let (e', o) := e.step j m; ({ d with env := some e' }, fmtStepOut e'.w.cfg.I o)
      | _, _, _ => (d, "bad-op"))
+  | ["esched"] => (match d.env with
+     | some e => (d, "sched " ++ " | ".intercalate (e.w.s.sched.map fun ms => " ".intercalate (ms.map (fmtSOp e.w.cfg.I))))
+     | none => (d, "bad-op"))
   | ["eauto", k] => (match d.env, k.toNat? with
      | some e, some k =>
        let acts := e.legalActions
